@@ -476,8 +476,9 @@ class DoIPConnection:
         self.target_addr = target_addr
         self.protocol_version = protocol_version
         self.separate_diagnostic_message_queue = separate_diagnostic_message_queue
-        self._diagnostic_message_queue: asyncio.Queue[DoIPDiagFrame] = asyncio.Queue()
-        self._read_queue: asyncio.Queue[DoIPFrame] = asyncio.Queue()
+        # None is put into the queues by close() in order to wake up pending readers
+        self._diagnostic_message_queue: asyncio.Queue[DoIPDiagFrame | None] = asyncio.Queue()
+        self._read_queue: asyncio.Queue[DoIPFrame | None] = asyncio.Queue()
         self._read_task = asyncio.create_task(self._read_worker())
         self._read_task.add_done_callback(
             handle_task_error,
@@ -576,7 +577,12 @@ class DoIPConnection:
         # the connection has been terminated.
         if self._is_closed:
             raise ConnectionError
-        return await self._read_queue.get()
+        frame = await self._read_queue.get()
+        if frame is None:
+            # The connection has been closed while waiting; keep the marker for other readers
+            self._read_queue.put_nowait(None)
+            raise ConnectionError
+        return frame
 
     async def read_frame(self) -> DoIPFrame:
         async with self._mutex:
@@ -586,7 +592,14 @@ class DoIPConnection:
         unexpected_packets: list[tuple[Any, Any]] = []
         while True:
             if self.separate_diagnostic_message_queue:
-                return await self._diagnostic_message_queue.get()
+                if self._is_closed:
+                    raise ConnectionError
+                diag_frame = await self._diagnostic_message_queue.get()
+                if diag_frame is None:
+                    # The connection has been closed while waiting; keep the marker for other readers
+                    self._diagnostic_message_queue.put_nowait(None)
+                    raise ConnectionError
+                return diag_frame
             hdr, payload = await self.read_frame()
             if not isinstance(payload, DiagnosticMessage):
                 logger.warning(f"expected DoIP DiagnosticMessage, instead got: {hdr} {payload}")
@@ -751,6 +764,9 @@ class DoIPConnection:
             logger.debug("DoIP connection already closed!")
             return
         self._is_closed = True
+        # Nobody feeds the queues any more; wake up everybody who still waits for a frame
+        self._read_queue.put_nowait(None)
+        self._diagnostic_message_queue.put_nowait(None)
         logger.debug("Cancelling read worker")
         self._read_task.cancel()
         self.writer.close()
